@@ -154,4 +154,39 @@ theorem moveSafe_real (basis : Array W) (size : Nat) (m : Move) (h : LegalShape 
       bne_iff_ne, ne_eq, Bool.not_eq_true']
     exact ⟨⟨hc.2.1, hc.2.2.1⟩, hlp.2.2.2.1, hlp.2.2.2.2⟩
 
+theorem length_le_sum (l : List Nat) (h : ∀ d ∈ l, 1 ≤ d) : l.length ≤ l.foldl (· + ·) 0 := by
+  induction l with
+  | nil => simp
+  | cons d l ih =>
+    simp only [List.foldl_cons, List.length_cons]
+    rw [PTN.foldl_add]
+    have := h d (by simp)
+    have := ih (fun e he => h e (by simp [he]))
+    omega
+
+/-- the text of a move of legal shape is at most 12 bytes long (`8a1>11111111`) -/
+theorem formatMove_length_le (size : Nat) (m : Move) (h : LegalShape size m) :
+    (Tak.PTN.formatMove m false).length ≤ 12 := by
+  obtain ⟨_, _, _, _, h3, h8⟩ := PTN.legalShape_bounds h
+  rcases PTN.legalShape_kind h with ⟨hp, hz⟩ | ⟨_, hs, hne, hds, hsum, _⟩
+  · obtain ⟨x, y, t, s⟩ := m
+    simp only at hz hp
+    subst hz
+    rcases PTN.placeType_cases t hp with rfl | rfl | rfl <;>
+      simp [Tak.PTN.formatMove, Facts.mtPlaceFlat, Facts.mtPlaceStanding, Facts.mtPlaceCapstone, Facts.mtSlideLeft,
+        Facts.mtSlideRight, Facts.mtSlideUp, Facts.mtSlideDown]
+  · obtain ⟨x, y, t, s⟩ := m
+    simp only at hs hne hds hsum
+    rw [PTN.formatMove_slide x y t s false hs (PTN.elems_ne_nil_ne_zero s hne)]
+    have hlen := length_le_sum (Slides.elems s) (fun d hd => (hds d hd).1)
+    simp only [List.length_append, List.length_cons, List.length_nil]
+    have h1 : (if false = true ∨ (Slides.elems s).foldl (· + ·) 0 ≠ 1 then
+        [UInt8.ofNat (48 + (Slides.elems s).foldl (· + ·) 0)] else ([] : Bytes)).length ≤ 1 := by
+      split <;> simp
+    have h2 : (if false = true ∨ (Slides.elems s).length ≠ 1 then PTN.digitsOf (Slides.elems s) else ([] : Bytes)).length ≤ 8 := by
+      split
+      · simp only [PTN.digitsOf, List.length_map]; omega
+      · simp
+    omega
+
 end PTN
